@@ -11,6 +11,8 @@ MODULES = [
     "contracts.c_retry2",
     "contracts.c_poll",
     "contracts.c_shutdown",
+    "contracts.c_bind",
+    "contracts.c_init",
 ]
 EXPECTED_MIN_OBLIGATIONS = {}
 PROPERTY_ASSUMPTIONS = {}
